@@ -614,6 +614,46 @@ def check_changed_target(b, case, q0, p0, rng):
     return "ok", None
 
 
+def check_restored_mass(case, p0, rng):
+    """An operator whose state is restored from a checkpoint holding ANOTHER mass matrix (as after adaptation) must
+    integrate, and compute its Hastings term, with that matrix: reference = a fresh operator built with it."""
+    torch = impl.load()
+    if case["kind"] not in ("normal", "mvn", "gamma") or case.get("mass_update"):
+        return "skipped", None
+    n = case["n"]
+    if case["mass_kind"] == "diag":
+        new_mass = [m * rng.uniform(0.3, 3.0) for m in case["mass"]]
+    else:
+        new_mass = [[case["mass"][i][j] * (1.0 if i != j else rng.uniform(1.2, 3.0)) for j in range(n)] for i in range(n)]
+    case2 = json.loads(json.dumps(case))
+    case2["mass"] = new_mass
+    b_ref = build(case2)                 # built with the new matrix
+    b = build(case)                      # built with the specification's matrix, then restored
+    sd = json.loads(json.dumps(b.op.state_dict(), default=lambda o: {"id": o.id, "type": "Parameter",
+                                                                     "tensor": o.tensor.tolist()}))
+    sd["mass_matrix"] = {"id": sd["mass_matrix"]["id"], "type": "Parameter", "tensor": new_mass}
+    b.op.load_state_dict(sd)
+    outs = []
+    for bb in (b, b_ref):
+        torch.manual_seed(case["draw_seed"] + 77)
+        try:
+            ret = float(bb.op.step())
+        except Exception as e:  # noqa
+            return "bad", f"step() after load_state_dict raises {type(e).__name__}: {str(e)[:120]}"
+        outs.append((ret, flat([x.tensor for x in bb.params])))
+        for x in bb.params:
+            x.requires_grad = False
+    (r1, q1), (r2, q2) = outs
+    if not (math.isfinite(r1) and math.isfinite(r2)):
+        return "undefined", None
+    err = max(maxabs([a - c for a, c in zip(q1, q2)]), abs(r1 - r2))
+    if not err <= 1e-9 * max(1.0, maxabs(q2), abs(r2)):
+        return "bad", (f"after load_state_dict with another mass matrix the operator's step differs from that of an "
+                       f"operator built with that matrix: positions / Hastings term off by {err:.3e} "
+                       f"(Hastings {r1!r} vs {r2!r})")
+    return "ok", None
+
+
 def det(M):
     n = len(M)
     A = [row[:] for row in M]
@@ -908,6 +948,7 @@ def work(args):
             c, o = case, out
             tests = [("reversible", lambda b: check_reversible(b, c, c["q0"], o["p0"], g))]
             tests.append(("changed-target", lambda b: check_changed_target(build(c), c, c["q0"], o["p0"], g)))
+            tests.append(("restored-mass-matrix", lambda b: check_restored_mass(c, o["p0"], g)))
             if tier == "thorough" or (not heavy and c["n"] * (c["L"] + 1) <= 100) or (heavy and c["L"] <= 5):
                 tests.append(("jacobian-det", lambda b: check_jacobian(b, c, c["q0"], o["p0"])))
             if tier == "thorough" or not heavy or ci % 2 == 0:
